@@ -836,6 +836,7 @@ func (r *chainRun) checkFreshReplay(n *Node) *Violation {
 			defer f2.Drop()
 			if r.replayPath(f2, n, path) == nil {
 				vi.Clause = "block-unplayable-with-small-utxo-cache"
+				vi.Op = "fresh-replay" // the finding is identified by the discriminator, not by the step that happened to precede the comparison
 			}
 		}
 		r.rc.BG = saveBG
